@@ -31,7 +31,7 @@ def setup(tier):
 
 
 def cases(tier, seed):
-    per = 25 if tier == "quick" else 1200
+    per = 25 if tier == "quick" else 4000
     out = [dict(c, kind="asm") for c in _embedded.assembly_cases(seed, per * len(gen.enzyme_names()), features=False, max_chain=4)]
     its = regs.items()
     step = 3 if tier == "quick" else 1
